@@ -249,6 +249,8 @@ def run(ctx: common.Run):
         ctx.report_unproved('lean-build', f'{failing}', {'theorem_or_correspondence': failing})
         return
     check_seeded_sampling(ctx, cirq)
+    check_scoped_feed_forward(ctx, cirq)
+    check_sampling_is_pure(ctx, cirq)
     n = 160 if ctx.tier == 'quick' else 1500
     rng = ctx.substream('circuits')
     corpus = common.VERIF / 'corpus' / 'C02'
@@ -343,6 +345,99 @@ def run(ctx: common.Run):
                 if not np.allclose(before, after, atol=1e-9):
                     ctx.report_witness('sample:mutates', 'sampling a step result changed its state', {'lines': [{'circuit': repr(pre)}],
                                        'impl_out': [repr(after.tolist())], 'spec_out': [repr(before.tolist())], 'theorem_or_correspondence': 'sample_pure'})
+
+
+def check_scoped_feed_forward(ctx, cirq):
+    """feed-forward across nested sub-circuits: a control key refers to the measurement of that name in the innermost enclosing scope
+    (loops with repetition ids at two levels, the same key name measured again in an outer scope, conditions three levels down).
+    The flat form and its binding come from the Lean unrolling specification (Model.C12), its record distribution from the Lean
+    Born-rule semantics; every simulator runs the nested circuit."""
+    from harness.props import c12
+
+    rng = ctx.substream('scoped-ff')
+    n = 24 if ctx.tier == 'quick' else 300
+    cases = []
+    for i in range(n):
+        g = c12.Gen(rng)
+        # codes with: a measurement in the middle body (always), the same name measured in the outer body / at top level, ids at every level
+        moments = g.scoped_template(rng.randrange(8192) | (1 << 7) if rng.random() < 0.5 else None)
+        cases.append((g, moments))
+    specs = ctx.driver.ask([{'p': 'C12', 'op': 'unroll', 'moments': m} for _, m in cases])
+    reqs, meta = [], []
+    for (g, moments), spec in zip(cases, specs):
+        b = c12.Builder(cirq, g.gates)
+        try:
+            wrapped = cirq.Circuit([cirq.Moment([b.node(x) for x in m]) for m in moments])
+        except ValueError as e:
+            ctx.count('scoped_ff', 'rejected: ' + str(e)[:40])
+            continue
+        if not any(f['mkey'] for f in spec) or len(spec) > 40:
+            continue
+        spec_circuit = cirq.Circuit(b.flat_to_cirq(f) for f in spec)
+        init = [0j] * (2 ** c12.NQ)
+        init[0] = 1
+        reqs.append({'p': 'C02', 'op': 'dist', 'shape': [2] * c12.NQ, 'init': [common.c2j(z) for z in init], 'ops': lean_ops(cirq, spec_circuit, list(b.qs))})
+        meta.append((wrapped, moments))
+    outs = ctx.driver.ask(reqs)
+    for (wrapped, moments), out in zip(meta, outs):
+        want = lean_dist(out)
+        ctx.case(['scoped-ff', repr(moments)], len(want) >= 2)
+        for sname, mk in (('Simulator', lambda p: cirq.Simulator(seed=p, dtype=np.complex128)), ('DensityMatrixSimulator', lambda p: cirq.DensityMatrixSimulator(seed=p, dtype=np.complex128))):
+            def once(prng, mk=mk):
+                return records_key(mk(prng).run(wrapped, repetitions=1).records)
+            try:
+                got = enumerate_branches(once, max_branches=400)
+            except (RuntimeError, ValueError) as e:
+                ctx.count('scoped_ff', f'skip:{sname}:{type(e).__name__}')
+                continue
+            ctx.count('check', f'scoped-feed-forward:{sname}')
+            if not dist_close(got, want):
+                ctx.report_witness(f'dist:scoped-feed-forward:{sname}', f'{sname}.run of a circuit with nested sub-circuits: the joint distribution of records is not that of the program with every '
+                                   'control key bound to the innermost enclosing measurement of that name',
+                                   {'lines': [{'circuit': repr(wrapped), 'structure': moments}], 'impl_out': [sorted((repr(k), round(v, 9)) for k, v in got.items())],
+                                    'spec_out': [sorted((repr(k), round(v, 9)) for k, v in want.items())], 'theorem_or_correspondence': 'Model.C12.unrollCircuit + Spec.Circuit.run'})
+
+
+def check_sampling_is_pure(ctx, cirq):
+    """asking any state object for samples, or for a measurement without collapse, leaves it as it was: state vector, density matrix and
+    stabilizer states (CH form and tableau), entangled and superposed"""
+    rng = ctx.substream('pure-sampling')
+    qs = cirq.LineQubit.range(3)
+    for it in range(6 if ctx.tier == 'quick' else 40):
+        prep = cirq.Circuit(cirq.H(qs[0]), cirq.CNOT(qs[0], qs[1]), cirq.H(qs[2]) if rng.random() < 0.5 else cirq.X(qs[2]), [cirq.S(q) for q in qs if rng.random() < 0.4],
+                            cirq.CNOT(qs[1], qs[2]) if rng.random() < 0.5 else [])
+        want = prep.final_state_vector(qubit_order=qs, dtype=np.complex128)
+        ctx.case(['pure-sampling', repr(prep)], True)
+        # (a) CliffordState: measurement without collapse
+        cs = cirq.CliffordSimulator(seed=1).simulate(prep, qubit_order=qs).final_state
+        for k in range(3):
+            meas = {}
+            cs.apply_measurement(cirq.measure(qs[k], key=f'k{k}'), meas, np.random.RandomState(rng.randrange(1 << 30)), collapse_state_vector=False)
+        got = cs.state_vector()
+        ctx.count('check', 'pure:CliffordState.apply_measurement(collapse=False)')
+        ph = np.vdot(want, got)
+        if abs(abs(ph) - 1) > 1e-6:
+            ctx.report_witness('sample:mutates:CliffordState', 'CliffordState.apply_measurement(collapse_state_vector=False) changed the state',
+                               {'lines': [{'circuit': repr(prep)}], 'impl_out': [repr(np.round(got, 6).tolist())], 'spec_out': [repr(np.round(want, 6).tolist())], 'theorem_or_correspondence': 'sample_pure'})
+        # (b) simulation states of every kind: sample() is pure
+        for name, sim in (('StateVector', cirq.Simulator(seed=1, dtype=np.complex128)), ('DensityMatrix', cirq.DensityMatrixSimulator(seed=1, dtype=np.complex128)),
+                          ('Clifford', cirq.CliffordSimulator(seed=1))):
+            for split in ((True, False) if name != 'Clifford' else (True,)):
+                if name != 'Clifford':
+                    sim = type(sim)(seed=1, dtype=np.complex128, split_untangled_states=split)
+                step = None
+                for step in sim.simulate_moment_steps(prep, qubit_order=qs):
+                    pass
+                rep = lambda st: (st.state.state_vector() if name == 'Clifford' else st.state_vector(copy=True)) if name != 'DensityMatrix' else st.density_matrix(copy=True)
+                before = np.array(rep(step))
+                step.sample(list(qs), repetitions=5, seed=rng.randrange(1 << 30))
+                step.sample([qs[1]], repetitions=2, seed=rng.randrange(1 << 30))
+                step.sample_measurement_ops([cirq.measure(qs[0], qs[2], key='m')], repetitions=3, seed=rng.randrange(1 << 30))
+                after = np.array(rep(step))
+                ctx.count('check', f'pure:{name}:step.sample')
+                if not np.allclose(before, after, atol=1e-9):
+                    ctx.report_witness(f'sample:mutates:{name}', f'sampling a {name} step result (split_untangled_states={split}) changed its state',
+                                       {'lines': [{'circuit': repr(prep)}], 'impl_out': [repr(np.round(after, 6).tolist())], 'spec_out': [repr(np.round(before, 6).tolist())], 'theorem_or_correspondence': 'sample_pure'})
 
 
 def check_seeded_sampling(ctx, cirq):
